@@ -2,10 +2,16 @@
 (* Trace specification for C13: traces recorded from the real wallet / dirk account managers      *)
 (* (with the real validators manager behind them) are behaviours of Accounts.                     *)
 (*   Reset    mgr, cfg (the specifiers as syntax trees - their text went to the real code)        *)
-(*   Refresh  what was offered and what the beacon node was scripted to answer (echoed), and      *)
-(*            observed after the call: the accounts the manager holds (known) and the validators  *)
-(*            manager's table as its public interface reports it (vals: [index, name])           *)
+(*   RefreshA what was offered (echoed) and, observed when the accounts part of the refresh is    *)
+(*            over (at the beacon node's door when the refresh is held there, else after the      *)
+(*            call), the accounts the manager holds (known)                                       *)
+(*   RefreshV what the beacon node was scripted to answer (echoed) and, observed after the call,  *)
+(*            the validators manager's table as its public interface reports it (vals: [index,    *)
+(*            name])                                                                              *)
 (*   Query    kind, epoch, indices, and the reply: [index, name] pairs                            *)
+(*   QueryCall / QueryReturn   the same for a query held at the validators manager while other    *)
+(*            calls run on the same instances                                                     *)
+(* One trace = one history on one pair of instances (the driver keeps them from Reset to Reset).  *)
 EXTENDS Accounts, TraceLib
 
 VARIABLE l
@@ -31,13 +37,19 @@ RecsFn(seq) ==
 
 Pairs(seq) == {<<p[1], p[2]>> : p \in SeqToSet(seq)}
 
-TraceRefresh ==
-    /\ IsEvent("Refresh")
+\* the two parts of a refresh are logged apart: anything may happen between them
+TraceRefreshA ==
+    /\ IsEvent("RefreshA")
+    /\ RefreshAccountsTo(SeqToSet(Trace[l].offer), SeqToSet(Trace[l].known))
+
+TraceRefreshV ==
+    /\ IsEvent("RefreshV")
     /\ LET t == Trace[l]
            out == [mode |-> t.mode, recs |-> RecsFn(t.recs)]
-       IN /\ RefreshTo(SeqToSet(t.offer), out, SeqToSet(t.known))
+       IN /\ RefreshValidators(out)
           /\ Pairs(t.vals) = {<<vals'[n].index, n>> : n \in DOMAIN vals'}
 
+\* a query that returned before anything else happened
 TraceQuery ==
     /\ IsEvent("Query")
     /\ LET t == Trace[l] IN
@@ -45,7 +57,18 @@ TraceQuery ==
           /\ Query(t.kind, t.epoch, SeqToSet(t.idxs))
           /\ last'.reply = Pairs(t.reply)
 
-TraceNext == TraceReset \/ TraceRefresh \/ TraceQuery
+\* a query that other calls overlapped
+TraceQueryCall ==
+    /\ IsEvent("QueryCall")
+    /\ QueryCall(Trace[l].kind, Trace[l].epoch, SeqToSet(Trace[l].idxs))
+
+TraceQueryReturn ==
+    /\ IsEvent("QueryReturn")
+    /\ Trace[l].ok
+    /\ QueryReturnWith(Pairs(Trace[l].reply))
+
+\* "Crash" (a call panicked) and "Hung" (a call did not return) are events no action allows
+TraceNext == TraceReset \/ TraceRefreshA \/ TraceRefreshV \/ TraceQuery \/ TraceQueryCall \/ TraceQueryReturn
 
 TraceSpec == TraceInit /\ [][TraceNext]_tvars
 
